@@ -516,7 +516,7 @@ func c04HalfOpenPermits(c *Ctx) {
 			stores := eventsWhere(p, func(e *Event) bool {
 				return e.Kind == EvStore && e.Addr.Op == "faddr" && FieldName(e.Addr.Aux) == "permittedExecutions"
 			})
-			if p.Exit != ExitReturn || len(stores) != 1 || stores[0].Addr.Args[0] != s || stores[0].Val != ts.Add(perm, ts.LinConst(1, intT), intT) {
+			if p.Exit != ExitReturn || len(stores) != 1 || !partOfObject(stores[0].Addr, s) || stores[0].Val != ts.Add(perm, ts.LinConst(1, intT), intT) {
 				ok = false
 				c.Fail(c.fn(fn), c.P.FuncPos(fn), "every recorded trial result must give its permit back: permittedExecutions+1 exactly once on every path, whatever the result", pathTrace(ev, p))
 			}
@@ -537,6 +537,17 @@ func c04HalfOpenPermits(c *Ctx) {
 	if okW {
 		c.Ok("circuitbreaker.halfOpenState.permittedExecutions#writers", "", "written only by the constructor, tryAcquirePermit and checkThresholdAndReleasePermit")
 	}
+}
+
+// partOfObject: addr is the address of a field of obj, directly or inside by-value parts of obj.
+func partOfObject(addr, obj *T) bool {
+	for d := 0; d < 4 && addr != nil && addr.Op == "faddr" && len(addr.Args) > 0; d++ {
+		if addr.Args[0] == obj {
+			return true
+		}
+		addr = addr.Args[0]
+	}
+	return false
 }
 
 // ---- C03.state-owner / edges ----------------------------------------------------------------------------
@@ -617,7 +628,14 @@ func c03Edges(c *Ctx) {
 		sc := stateConst(c, ts, wantState)
 		for _, p := range ev.Run(fn) {
 			evs := impure(p)
-			if len(evs) != 1 || !isCall(evs[0], "transitionTo") || sc == nil || len(evs[0].Args) < 3 || evs[0].Args[0] != sc || loadedField(evs[0].Args[2]) != wantListener {
+			if len(evs) == 1 && isCall(evs[0], "transitionTo") && sc != nil && len(evs[0].Args) == 2 && evs[0].Args[0] == sc && evs[0].Fn != nil && len(evs[0].Fn.Params) == 3 {
+				// transitionTo(state, exec): the listener is chosen inside transitionTo, from the target state
+				if okL, why, tr2 := transitionPicksListener(c, evs[0].Fn, wantState, wantListener); !okL {
+					good = false
+					c.Fail(c.fn(fn), c.P.FuncPos(fn), fmt.Sprintf("%s must be exactly transitionTo(%s, …, %s): %s", tr, wantState, wantListener, why), tr2)
+					continue
+				}
+			} else if len(evs) != 1 || !isCall(evs[0], "transitionTo") || sc == nil || len(evs[0].Args) < 3 || evs[0].Args[0] != sc || loadedField(evs[0].Args[2]) != wantListener {
 				good = false
 				c.Fail(c.fn(fn), c.P.FuncPos(fn), fmt.Sprintf("%s must be exactly transitionTo(%s, …, %s)", tr, wantState, wantListener), pathTrace(ev, p))
 				continue
@@ -660,6 +678,67 @@ func c03Edges(c *Ctx) {
 	}
 }
 
+// transitionPicksListener: a transitionTo without a listener parameter, evaluated for the target wantState, calls of
+// the three per-state listeners of the config only the one named wantListener, exactly once when it is set, on every
+// path that replaces the state — and none on a path that does not.
+func transitionPicksListener(c *Ctx, fn *ssa.Function, wantState, wantListener string) (bool, string, string) {
+	ev := NewEvaluator(c.P, EvalConfig{})
+	ts := ev.TS
+	sc := stateConst(c, ts, wantState)
+	cb := ev.Param(fn, fn.Params[0].Name())
+	newState := ev.Param(fn, fn.Params[1].Name())
+	if sc == nil || cb == nil || newState == nil {
+		return false, "parameters not found", ""
+	}
+	want := ev.LoadField(ev.NewState(), cb, "config", wantListener)
+	if want == nil {
+		return false, "listener field not found", ""
+	}
+	paths := ev.Run(fn)
+	if ev.Err != nil || len(paths) == 0 {
+		return false, fmt.Sprintf("evaluation failed: %v", ev.Err), ""
+	}
+	n := 0
+	for _, p := range paths {
+		if p.State.Facts.Truth(ts, ts.Cmp("==", newState, sc)) == triF {
+			continue // another target
+		}
+		stores := eventsWhere(p, func(e *Event) bool {
+			return e.Kind == EvStore && e.Addr.Op == "faddr" && FieldName(e.Addr.Aux) == "state"
+		})
+		specific := eventsWhere(p, func(e *Event) bool {
+			if e.Kind != EvCall || e.FnTerm == nil {
+				return false
+			}
+			switch loadedField(e.FnTerm) {
+			case "openListener", "closeListener", "halfOpenListener":
+				return true
+			}
+			return false
+		})
+		for _, e := range specific {
+			if e.FnTerm != want {
+				return false, "another state's listener is notified", pathTrace(ev, p)
+			}
+		}
+		if len(stores) == 0 {
+			if len(specific) != 0 {
+				return false, "a listener is notified without a transition", pathTrace(ev, p)
+			}
+			continue
+		}
+		n++
+		has := p.State.Facts.Truth(ts, ts.Cmp("!=", want, ts.Nil(nil)))
+		if has == triU || (has == triT) != (len(specific) == 1) || len(specific) > 1 {
+			return false, "the target state's listener must be called exactly once when set", pathTrace(ev, p)
+		}
+	}
+	if n == 0 {
+		return false, "no transitioning path", ""
+	}
+	return true, "", ""
+}
+
 // ---- C03.transition ------------------------------------------------------------------------------------
 
 func c03Transition(c *Ctx) {
@@ -681,6 +760,23 @@ func c03Transition(c *Ctx) {
 	cb := ev.Param(fn, fn.Params[0].Name())
 	newState, exec, listener := ev.Param(fn, "newState"), ev.Param(fn, "exec"), ev.Param(fn, "listener")
 	s0 := ev.NewState()
+	// transitionTo(newState, exec) without a listener parameter picks the target's listener itself: the specific
+	// listener of a path is then the configured listener of that path's target
+	perTarget := map[string]*T{}
+	if listener == nil && len(fn.Params) == 3 {
+		for t, f := range map[string]string{"closed": "closeListener", "open": "openListener", "halfopen": "halfOpenListener"} {
+			perTarget[t] = ev.LoadField(s0, cb, "config", f)
+		}
+		if perTarget["closed"] != nil && perTarget["open"] != nil && perTarget["halfopen"] != nil {
+			listener = perTarget["closed"]
+		}
+	}
+	isSpecific := func(t *T) bool {
+		if len(perTarget) == 0 {
+			return t == listener
+		}
+		return t == perTarget["closed"] || t == perTarget["open"] || t == perTarget["halfopen"]
+	}
 	old := ev.LoadField(s0, cb, "state")
 	generic := ev.LoadField(s0, cb, "config", "stateChangedListener")
 	cfgDelay := ev.LoadField(s0, cb, "config", "BaseDelayablePolicy", "Delay")
@@ -711,7 +807,7 @@ func c03Transition(c *Ctx) {
 			return e.Kind == EvStore && e.Addr.Op == "faddr" && FieldName(e.Addr.Aux) == "state"
 		})
 		lcalls := eventsWhere(p, func(e *Event) bool {
-			return e.Kind == EvCall && e.FnTerm != nil && (e.FnTerm == listener || e.FnTerm == generic)
+			return e.Kind == EvCall && e.FnTerm != nil && (isSpecific(e.FnTerm) || e.FnTerm == generic)
 		})
 		if cur == nil {
 			bad("transitionTo must compare the current state with the target")
@@ -819,7 +915,16 @@ func c03Transition(c *Ctx) {
 				bad("a state-change listener is called before the state was replaced")
 			}
 		}
-		for _, L := range []*T{listener, generic} {
+		specific := listener
+		if len(perTarget) != 0 {
+			specific = perTarget[target]
+			for _, lc := range lcalls {
+				if lc.FnTerm != specific && lc.FnTerm != generic {
+					bad("a transition must notify the listener registered for its target state, not another state's")
+				}
+			}
+		}
+		for _, L := range []*T{specific, generic} {
 			has := p.State.Facts.Truth(ts, ts.Cmp("!=", L, ts.Nil(nil)))
 			calls := eventsWhere(p, func(e *Event) bool { return isDynCall(e, L) })
 			if has == triU || (has == triT) != (len(calls) == 1) || len(calls) > 1 {
